@@ -65,6 +65,9 @@ def o13_3_block_cache(mir, tier):
                         posts.append(('a block that was just cached is read from disk again, or a read is answered from the cache although the block was never cached', If(And(fill1, o1 == o2), BoolVal(served_from_cache), BoolVal(not served_from_cache))))
                 res.cases['same_table=%s disk reads %d' % (same_table, env2['$state']['disk_reads'])] = 1
                 for label, post, m in ex.check_posts(posts, pc2):
+                    if 'served to a read of a different table' in label:
+                        # a second native scenario: cache ids and block offsets of two tables mirror each other
+                        res.violations.append({'label': label, 'same_table': same_table, 'model': {str(x): mval(m, x) for x in (p1, p2, o1, o2, fill1, fill2)}, 'replay': ['block_cache_collision']})
                     res.violations.append({'label': label, 'same_table': same_table, 'model': {str(x): mval(m, x) for x in (p1, p2, o1, o2, fill1, fill2)}, 'replay': ['db_scenario', 'P61=01', 'F', 'P62=02', 'F', 'G61', 'G62', 'G61', 'G62'] if 'served to a read of a different table' in label else None,
                                            'confirmed_by': None if 'served to a read of a different table' in label else {'reproduced': False, 'detail': 'no native scenario for this label'}})
             ro2 = mir.mk_struct('ReadOptions', fill_cache=fill2, snapshot=Enum('None'))
@@ -87,5 +90,8 @@ def o13_3_block_cache(mir, tier):
 def o13_3_confirm(v, out):
     """Native: two tables (one key each, so both have their only data block at offset 0) in one database with the default block
     cache; both keys are read twice; compared with the reference model of the scenario."""
+    if v['replay'][0] == 'block_cache_collision':
+        if out.get('_rc') != 0: return (True, 'native run panicked: %s' % out.get('_stderr', '')[-200:])
+        return (out.get('table1_m') != 'from-table-1' or out.get('table2_m') != 'from-table-2', 'native (%s): table 1 answers %s, table 2 answers %s' % (out.get('setup'), out.get('table1_m'), out.get('table2_m')))
     from .. import dbmodel
     return dbmodel.compare(v['replay'][1:], out)
